@@ -336,7 +336,7 @@ func Catalogue(r *Rng, img []byte) []Mutation {
 		if !d.Used {
 			continue
 		}
-		for _, v := range []int64{d.Size - 1, d.Size + 1, 0} {
+		for _, v := range []int64{d.Size - 1, d.Size + 1, 0, -1, -1 << 63} {
 			v := v
 			mut(fmt.Sprintf("desc%d size:=%d", i, v), func(b []byte) { putLE(b, o+25, 8, uint64(v)) })
 		}
